@@ -18,10 +18,11 @@ From UPF Require Import Base.LTS.
 Import ListNotations.
 
 Inductive dgram := DRelease | DSetup | DOther.     (* DOther: any request answered in place *)
-Inductive role := RRd | RSel | RHb | RFst | RNode | RStop.
-Inductive fname := FReader | FSelect | FHb | FFirst | FDo | FNode | FStop.
-Inductive chref := CShut | CTmo | CHb | CPcd | CCtx | CDone.
-Inductive guard := GRecv (c : chref) | GRecvForget (c : chref) | GTimer.
+Inductive role := RRd | RSel | RHb | RFst | RNode | RStop | RPeers.
+Inductive fname := FReader | FSelect | FHb | FFirst | FDo | FNode | FStop | FPeers.
+Inductive chref := CShut | CTmo | CHb | CPcd | CCtx | CDone | CNpd.
+(* GRecvNpd: `case <-newPeersDone: newPeersDone = nil` on the node's local copy (a nil channel never fires) *)
+Inductive guard := GRecv (c : chref) | GRecvForget (c : chref) | GTimer | GRecvNpd.
 
 (* every instruction names its successor(s) as program counters inside the same function *)
 Inductive instr :=
@@ -32,6 +33,10 @@ Inductive instr :=
 | RecvForget (c : chref) (k_ok k_closed : nat)      (* for v := range c { pConns.Delete(v) } - one iteration *)
 | TryRecvForget (c : chref) (k_got k_none : nat)    (* select { case v, ok := <-c: ... default: } *)
 | IfLen (c : chref) (k_pos k_zero : nat)            (* if len(c) > 0 *)
+| StopWait (k_loop k_exit : nat)              (* for newPeersDone != nil || pConnsEnded < pConnsCreated.Load() *)
+| WaitSockClosed (k : nat)                    (* handleNewPeers: ReadFrom returns net.ErrClosed, the loop returns *)
+| HbStart (k_run k_ret : nat)                 (* monitor: hbMu { shutdown closed ? return : hbCtxCancel = cancel } *)
+| HbCancel (k : nat)                          (* doShutdown: hbMu { if hbCtxCancel != nil { hbCtxCancel() } } *)
 | OnceDo (k : nat)                            (* pConn.Shutdown() = shutdownOnce.Do(doShutdown) *)
 | OnceRet                                     (* doShutdown returns; Once marks completion *)
 | Snapshot (k_loop k_exit : nat)              (* it := store.GetAllSessions() *)
@@ -56,17 +61,20 @@ Definition code (f : fname) : list instr :=
   | FSelect => [ Select [(GRecv CTmo, 1); (GRecv CCtx, 1); (GRecv CShut, 2)];
                  OnceDo 2;                (* 1  pConn.Shutdown(); return *)
                  Ret ]                    (* 2 *)
-  | FHb     => [ Select [(GRecv CHb, 2); (GRecv CCtx, 2); (GTimer, 1)];
-                 OnceDo 0;                (* 1  request timed out: pConn.Shutdown(), loop *)
+  | FHb     => [ HbStart 1 3;             (* 0  startHeartBeatMonitor under hbMu *)
+                 Select [(GRecv CHb, 3); (GRecv CCtx, 3); (GTimer, 2)];
+                 OnceDo 1;                (* 2  request timed out: pConn.Shutdown(), loop *)
                  Ret ]
-  | FFirst  => [ Accept 1 2 5;            (* 0 *)
-                 OnceDo 2;                (* 1  p.HandlePFCPMsg(buf) with buf = release *)
-                 MapStore 3;              (* 2 *)
-                 Go 4;                    (* 3 *)
-                 Unbusy 5;                (* 4 *)
-                 Ret ]
+  | FFirst  => [ Accept 1 3 7;            (* 0  ReadFrom, pConns.Load, pConnsCreated.Add(1) *)
+                 MapStore 2;              (* 1  first datagram = release: pConns.Store ... *)
+                 OnceDo 4;                (* 2  ... then p.HandlePFCPMsg(buf): deferred Shutdown *)
+                 MapStore 4;              (* 3  first datagram = setup: pConns.Store; HandlePFCPMsg *)
+                 Go 5;                    (* 4  go p.Serve() *)
+                 Unbusy 6;                (* 5 *)
+                 Ret;                     (* 6 *)
+                 Ret ]                    (* 7  dropped: the address is already in pConns *)
   | FDo     => [ Close CShut 1;           (* 0 *)
-                 Cancel CHb 2;            (* 1  if hbCtxCancel != nil { hbCtxCancel() } *)
+                 HbCancel 2;              (* 1 *)
                  Snapshot 3 5;            (* 2 *)
                  DpDelete 4;              (* 3 *)
                  StoreDelete 3 5;         (* 4 *)
@@ -75,12 +83,14 @@ Definition code (f : fname) : list instr :=
                  OnceRet ]                (* 7 *)
   | FNode   => [ Select [(GRecvForget CPcd, 0); (GRecv CCtx, 1)];
                  CloseSock 2;             (* 1  node.Close() *)
-                 TryRecvForget CPcd 2 3;  (* 2  clearLoop *)
-                 IfLen CPcd 4 5;          (* 3 *)
-                 RecvForget CPcd 4 5;     (* 4  for rAddr := range node.pConnDone *)
-                 Close CPcd 6;            (* 5 *)
-                 Exit 7;                  (* 6 *)
-                 Close CDone 8;           (* 7 *)
+                 StopWait 3 4;            (* 2  wait for the listener and for every connection *)
+                 Select [(GRecvNpd, 2); (GRecvForget CPcd, 2)];   (* 3 *)
+                 Close CPcd 5;            (* 4 *)
+                 Exit 6;                  (* 5 *)
+                 Close CDone 7;           (* 6 *)
+                 Ret ]
+  | FPeers  => [ WaitSockClosed 1;        (* 0  the accept loop sees the closed socket *)
+                 Close CNpd 2;            (* 1  defer close(node.newPeersDone) *)
                  Ret ]
   | FStop   => [ Cancel CCtx 1;           (* 0  node.Stop(): node.cancel() *)
                  Select [(GRecv CDone, 2)];   (* 1  node.Done() *)
@@ -89,7 +99,7 @@ Definition code (f : fname) : list instr :=
   end.
 
 Definition home (r : role) : fname :=
-  match r with RRd => FReader | RSel => FSelect | RHb => FHb | RFst => FFirst | RNode => FNode | RStop => FStop end.
+  match r with RRd => FReader | RSel => FSelect | RHb => FHb | RFst => FFirst | RNode => FNode | RStop => FStop | RPeers => FPeers end.
 
 (* ------------------------------------------------------------------ state *)
 Inductive tstat := TAbsent | TNotStarted | TRunning | TFinished.
@@ -109,6 +119,7 @@ Record assoc := Assoc {
   a_inbox : list dgram;    (* datagrams delivered and not yet read *)
   a_tmo_armed : bool;      (* the peer has been silent past readTimeout *)
   a_hb_armed : bool;       (* a heartbeat request ran out of retries *)
+  a_hbreg : bool;          (* hbCtxCancel != nil: the monitor has registered its cancel function *)
   a_rd : thr; a_sel : thr; a_hb : thr; a_fst : thr }.
 
 Record node := Node {
@@ -118,7 +129,11 @@ Record node := Node {
   n_exit : bool;           (* upf.Exit() called *)
   n_busy : bool;           (* the handleNewPeers goroutine is inside NewPFCPConn *)
   n_main : bool;           (* main returned after node.Done(): the process is gone *)
-  n_thr : thr; n_stop : thr }.
+  n_npd : chan;            (* node.newPeersDone *)
+  n_npdnil : bool;         (* Serve's local copy of newPeersDone has been set to nil *)
+  n_created : nat;         (* pConnsCreated *)
+  n_ended : nat;           (* Serve's local pConnsEnded *)
+  n_thr : thr; n_stop : thr; n_peers : thr }.
 
 (* EStop: the process is told to stop (PFCPIface.Stop runs).  ECancel: the node context is cancelled
    without the stop sequence being scheduled here (used for connection-level scenarios) *)
@@ -127,51 +142,58 @@ Inductive env := EDeliver (i : nat) (d : dgram) | ETimeout (i : nat) | EHbFail (
 Record state := State { s_node : node; s_asc : list assoc; s_env : list env; s_panic : option string }.
 
 (* labels: thread ids, enriched with the select alternative; TEnv k fires the k-th pending event *)
-Inductive tid := TEnv (k : nat) | TNode (alt : nat) | TStop | TA (i : nat) (r : role) (alt : nat).
+Inductive tid := TEnv (k : nat) | TNode (alt : nat) | TStop | TPeers | TA (i : nat) (r : role) (alt : nat).
 
 (* ------------------------------------------------------------------ field updates *)
-Definition set_store a v := let 'Assoc _ de on sh tm hb so ib ta ha rd se ht fs := a in Assoc v de on sh tm hb so ib ta ha rd se ht fs.
-Definition set_del a v := let 'Assoc st _ on sh tm hb so ib ta ha rd se ht fs := a in Assoc st v on sh tm hb so ib ta ha rd se ht fs.
-Definition set_once a v := let 'Assoc st de _ sh tm hb so ib ta ha rd se ht fs := a in Assoc st de v sh tm hb so ib ta ha rd se ht fs.
-Definition set_shut a v := let 'Assoc st de on _ tm hb so ib ta ha rd se ht fs := a in Assoc st de on v tm hb so ib ta ha rd se ht fs.
-Definition set_tmo a v := let 'Assoc st de on sh _ hb so ib ta ha rd se ht fs := a in Assoc st de on sh v hb so ib ta ha rd se ht fs.
-Definition set_hbc a v := let 'Assoc st de on sh tm _ so ib ta ha rd se ht fs := a in Assoc st de on sh tm v so ib ta ha rd se ht fs.
-Definition set_sock a v := let 'Assoc st de on sh tm hb _ ib ta ha rd se ht fs := a in Assoc st de on sh tm hb v ib ta ha rd se ht fs.
-Definition set_inbox a v := let 'Assoc st de on sh tm hb so _ ta ha rd se ht fs := a in Assoc st de on sh tm hb so v ta ha rd se ht fs.
-Definition set_tmo_armed a v := let 'Assoc st de on sh tm hb so ib _ ha rd se ht fs := a in Assoc st de on sh tm hb so ib v ha rd se ht fs.
-Definition set_hb_armed a v := let 'Assoc st de on sh tm hb so ib ta _ rd se ht fs := a in Assoc st de on sh tm hb so ib ta v rd se ht fs.
+Definition set_store a v := let 'Assoc _ de on sh tm hb so ib ta ha hr rd se ht fs := a in Assoc v de on sh tm hb so ib ta ha hr rd se ht fs.
+Definition set_del a v := let 'Assoc st _ on sh tm hb so ib ta ha hr rd se ht fs := a in Assoc st v on sh tm hb so ib ta ha hr rd se ht fs.
+Definition set_once a v := let 'Assoc st de _ sh tm hb so ib ta ha hr rd se ht fs := a in Assoc st de v sh tm hb so ib ta ha hr rd se ht fs.
+Definition set_shut a v := let 'Assoc st de on _ tm hb so ib ta ha hr rd se ht fs := a in Assoc st de on v tm hb so ib ta ha hr rd se ht fs.
+Definition set_tmo a v := let 'Assoc st de on sh _ hb so ib ta ha hr rd se ht fs := a in Assoc st de on sh v hb so ib ta ha hr rd se ht fs.
+Definition set_hbc a v := let 'Assoc st de on sh tm _ so ib ta ha hr rd se ht fs := a in Assoc st de on sh tm v so ib ta ha hr rd se ht fs.
+Definition set_sock a v := let 'Assoc st de on sh tm hb _ ib ta ha hr rd se ht fs := a in Assoc st de on sh tm hb v ib ta ha hr rd se ht fs.
+Definition set_inbox a v := let 'Assoc st de on sh tm hb so _ ta ha hr rd se ht fs := a in Assoc st de on sh tm hb so v ta ha hr rd se ht fs.
+Definition set_tmo_armed a v := let 'Assoc st de on sh tm hb so ib _ ha hr rd se ht fs := a in Assoc st de on sh tm hb so ib v ha hr rd se ht fs.
+Definition set_hb_armed a v := let 'Assoc st de on sh tm hb so ib ta _ hr rd se ht fs := a in Assoc st de on sh tm hb so ib ta v hr rd se ht fs.
+Definition set_hbreg a v := let 'Assoc st de on sh tm hb so ib ta ha _ rd se ht fs := a in Assoc st de on sh tm hb so ib ta ha v rd se ht fs.
 
 Definition get_thr (a : assoc) (r : role) : thr :=
   match r with RRd => a_rd a | RSel => a_sel a | RHb => a_hb a | _ => a_fst a end.
 Definition set_thr (a : assoc) (r : role) (t : thr) : assoc :=
-  let 'Assoc st de on sh tm hb so ib ta ha rd se ht fs := a in
+  let 'Assoc st de on sh tm hb so ib ta ha hr rd se ht fs := a in
   match r with
-  | RRd => Assoc st de on sh tm hb so ib ta ha t se ht fs
-  | RSel => Assoc st de on sh tm hb so ib ta ha rd t ht fs
-  | RHb => Assoc st de on sh tm hb so ib ta ha rd se t fs
-  | _ => Assoc st de on sh tm hb so ib ta ha rd se ht t
+  | RRd => Assoc st de on sh tm hb so ib ta ha hr t se ht fs
+  | RSel => Assoc st de on sh tm hb so ib ta ha hr rd t ht fs
+  | RHb => Assoc st de on sh tm hb so ib ta ha hr rd se t fs
+  | _ => Assoc st de on sh tm hb so ib ta ha hr rd se ht t
   end.
 
-Definition nset_ctx n v := let 'Node _ pc dn ls mp ex bu mn th sp := n in Node v pc dn ls mp ex bu mn th sp.
-Definition nset_pcd n v := let 'Node cx _ dn ls mp ex bu mn th sp := n in Node cx v dn ls mp ex bu mn th sp.
-Definition nset_done n v := let 'Node cx pc _ ls mp ex bu mn th sp := n in Node cx pc v ls mp ex bu mn th sp.
-Definition nset_lsock n v := let 'Node cx pc dn _ mp ex bu mn th sp := n in Node cx pc dn v mp ex bu mn th sp.
-Definition nset_map n v := let 'Node cx pc dn ls _ ex bu mn th sp := n in Node cx pc dn ls v ex bu mn th sp.
-Definition nset_exit n v := let 'Node cx pc dn ls mp _ bu mn th sp := n in Node cx pc dn ls mp v bu mn th sp.
-Definition nset_busy n v := let 'Node cx pc dn ls mp ex _ mn th sp := n in Node cx pc dn ls mp ex v mn th sp.
-Definition nset_main n v := let 'Node cx pc dn ls mp ex bu _ th sp := n in Node cx pc dn ls mp ex bu v th sp.
-Definition nset_thr n v := let 'Node cx pc dn ls mp ex bu mn _ sp := n in Node cx pc dn ls mp ex bu mn v sp.
-Definition nset_stop n v := let 'Node cx pc dn ls mp ex bu mn th _ := n in Node cx pc dn ls mp ex bu mn th v.
+Definition nset_ctx n v := let 'Node _ pc dn ls mp ex bu mn np nn cr en th sp pe := n in Node v pc dn ls mp ex bu mn np nn cr en th sp pe.
+Definition nset_pcd n v := let 'Node cx _ dn ls mp ex bu mn np nn cr en th sp pe := n in Node cx v dn ls mp ex bu mn np nn cr en th sp pe.
+Definition nset_done n v := let 'Node cx pc _ ls mp ex bu mn np nn cr en th sp pe := n in Node cx pc v ls mp ex bu mn np nn cr en th sp pe.
+Definition nset_lsock n v := let 'Node cx pc dn _ mp ex bu mn np nn cr en th sp pe := n in Node cx pc dn v mp ex bu mn np nn cr en th sp pe.
+Definition nset_map n v := let 'Node cx pc dn ls _ ex bu mn np nn cr en th sp pe := n in Node cx pc dn ls v ex bu mn np nn cr en th sp pe.
+Definition nset_exit n v := let 'Node cx pc dn ls mp _ bu mn np nn cr en th sp pe := n in Node cx pc dn ls mp v bu mn np nn cr en th sp pe.
+Definition nset_busy n v := let 'Node cx pc dn ls mp ex _ mn np nn cr en th sp pe := n in Node cx pc dn ls mp ex v mn np nn cr en th sp pe.
+Definition nset_main n v := let 'Node cx pc dn ls mp ex bu _ np nn cr en th sp pe := n in Node cx pc dn ls mp ex bu v np nn cr en th sp pe.
+Definition nset_npd n v := let 'Node cx pc dn ls mp ex bu mn _ nn cr en th sp pe := n in Node cx pc dn ls mp ex bu mn v nn cr en th sp pe.
+Definition nset_npdnil n v := let 'Node cx pc dn ls mp ex bu mn np _ cr en th sp pe := n in Node cx pc dn ls mp ex bu mn np v cr en th sp pe.
+Definition nset_created n v := let 'Node cx pc dn ls mp ex bu mn np nn _ en th sp pe := n in Node cx pc dn ls mp ex bu mn np nn v en th sp pe.
+Definition nset_ended n v := let 'Node cx pc dn ls mp ex bu mn np nn cr _ th sp pe := n in Node cx pc dn ls mp ex bu mn np nn cr v th sp pe.
+Definition nset_thr n v := let 'Node cx pc dn ls mp ex bu mn np nn cr en _ sp pe := n in Node cx pc dn ls mp ex bu mn np nn cr en v sp pe.
+Definition nset_stop n v := let 'Node cx pc dn ls mp ex bu mn np nn cr en th _ pe := n in Node cx pc dn ls mp ex bu mn np nn cr en th v pe.
+Definition nset_peers n v := let 'Node cx pc dn ls mp ex bu mn np nn cr en th sp _ := n in Node cx pc dn ls mp ex bu mn np nn cr en th sp v.
 
 Definition get_ch (nd : node) (a : assoc) (c : chref) : chan :=
   match c with
   | CShut => a_shut a | CTmo => a_tmo a | CHb => a_hbc a
-  | CPcd => n_pcd nd | CCtx => n_ctx nd | CDone => n_done nd
+  | CPcd => n_pcd nd | CCtx => n_ctx nd | CDone => n_done nd | CNpd => n_npd nd
   end.
 Definition set_ch (nd : node) (a : assoc) (c : chref) (v : chan) : node * assoc :=
   match c with
   | CShut => (nd, set_shut a v) | CTmo => (nd, set_tmo a v) | CHb => (nd, set_hbc a v)
   | CPcd => (nset_pcd nd v, a) | CCtx => (nset_ctx nd v, a) | CDone => (nset_done nd v, a)
+  | CNpd => (nset_npd nd v, a)
   end.
 
 Definition goto (t : thr) (k : nat) : thr := Thr (t_st t) (t_fn t) k (t_ret t) (t_it t).
@@ -187,7 +209,9 @@ Fixpoint remove_all (x : N) (l : list N) : list N :=
 Fixpoint memN (x : N) (l : list N) : bool :=
   match l with [] => false | y :: r => N.eqb x y || memN x r end.
 
-Definition forget (nd : node) (v : N) : node := nset_map nd (remove_all v (n_map nd)).
+(* a completion received by the node: pConnsEnded++; pConns.Delete(rAddr) *)
+Definition forget (nd : node) (v : N) : node :=
+  nset_ended (nset_map nd (remove_all v (n_map nd))) (S (n_ended nd)).
 Definition is_nil {A} (l : list A) : bool := match l with [] => true | _ => false end.
 Definition is_select (i : instr) : bool := match i with Select _ => true | _ => false end.
 
@@ -221,6 +245,9 @@ Definition exec (me : N) (r : role) (alt : nat) (nd : node) (a : assoc) (t : thr
       | Blocked => Blocked | Panic s => Panic s
       end
     | Some (GTimer, k) => if a_hb_armed a then Ok (nd, set_hb_armed a false, goto t k) else Blocked
+    | Some (GRecvNpd, k) =>
+      (* nobody sends on newPeersDone: the receive is ready iff the channel is closed *)
+      if negb (n_npdnil nd) && cclosed (n_npd nd) then Ok (nset_npdnil nd true, a, goto t k) else Blocked
     end
   | RecvForget c k_ok k_closed =>
     match ch_recv (get_ch nd a c) with
@@ -236,6 +263,13 @@ Definition exec (me : N) (r : role) (alt : nat) (nd : node) (a : assoc) (t : thr
     | Panic s => Panic s
     end
   | IfLen c k_pos k_zero => Ok (nd, a, goto t (if is_nil (cbuf (get_ch nd a c)) then k_zero else k_pos))
+  | StopWait k_loop k_exit =>
+    Ok (nd, a, goto t (if negb (n_npdnil nd) || (n_ended nd <? n_created nd) then k_loop else k_exit))
+  | WaitSockClosed k => if n_lsock nd && negb (n_busy nd) then Ok (nd, a, goto t k) else Blocked
+  | HbStart k_run k_ret =>
+    if cclosed (a_shut a) then Ok (nd, a, goto t k_ret) else Ok (nd, set_hbreg a true, goto t k_run)
+  | HbCancel k =>
+    if a_hbreg a then Ok (nd, set_hbc a (ch_cancel (a_hbc a)), goto t k) else Ok (nd, a, goto t k)
   | OnceDo k =>
     match a_once a with
     | ONew => Ok (nd, set_once a (ORun r), Thr (t_st t) FDo 0 k (t_it t))
@@ -274,7 +308,7 @@ Definition exec (me : N) (r : role) (alt : nat) (nd : node) (a : assoc) (t : thr
          | [] => Blocked
          | d :: ib =>
            if memN me (n_map nd) then Ok (nd, set_inbox a ib, goto t k_drop)
-           else Ok (nset_busy nd true, set_inbox a ib,
+           else Ok (nset_created (nset_busy nd true) (S (n_created nd)), set_inbox a ib,
                     goto t (match d with DRelease => k_rel | _ => k_setup end))
          end
   | MapStore k => Ok (nset_map nd (me :: remove_all me (n_map nd)), a, goto t k)
@@ -303,7 +337,7 @@ Definition thread_step (me : N) (r : role) (alt : nat) (nd : node) (a : assoc) (
 (* ------------------------------------------------------------------ the system *)
 Definition thr0 (st : tstat) (f : fname) : thr := Thr st f 0 0 [].
 Definition assoc0 : assoc :=
-  Assoc [] [] ONew (mkchan 0) (mkchan 1) (mkchan 0) false [] false false
+  Assoc [] [] ONew (mkchan 0) (mkchan 1) (mkchan 0) false [] false false false
         (thr0 TAbsent FReader) (thr0 TAbsent FSelect) (thr0 TAbsent FHb) (thr0 TAbsent FFirst).
 
 Fixpoint upd {A} (l : list A) (i : nat) (x : A) : list A :=
@@ -321,7 +355,7 @@ Fixpoint remove_nth {A} (l : list A) (k : nat) : list A :=
   end.
 
 Definition is_assoc_role (r : role) : bool :=
-  match r with RNode | RStop => false | _ => true end.
+  match r with RNode | RStop | RPeers => false | _ => true end.
 
 Definition apply_env (s : state) (e : env) : state :=
   let asc := s_asc s in
@@ -365,6 +399,12 @@ Definition step (s : state) (l : tid) : option state :=
     | Panic site => Some (State nd (s_asc s) (s_env s) (Some site))
     | Blocked => None
     end
+  | TPeers =>
+    match thread_step 0%N RPeers 0 nd assoc0 (n_peers nd) with
+    | Ok (nd', _, t') => Some (State (nset_peers nd' t') (s_asc s) (s_env s) None)
+    | Panic site => Some (State nd (s_asc s) (s_env s) (Some site))
+    | Blocked => None
+    end
   | TStop =>
     match thread_step 0%N RStop 0 nd assoc0 (n_stop nd) with
     | Ok (nd', _, t') => Some (State (nset_stop nd' t') (s_asc s) (s_env s) None)
@@ -401,9 +441,10 @@ Definition init_assoc (c : acfg) : assoc :=
   let st := if live then TRunning else TNotStarted in
   Assoc (c_sess c) [] ONew (mkchan 0) (mkchan tmo_cap) (mkchan 0) false
         (match c_first c with Some d => [d] | None => [] end) false false
+        (live && c_hb c)                       (* an established association's monitor has registered *)
         (thr0 st FReader) (thr0 st FSelect)
-        (thr0 (if c_hb c then st else TAbsent) FHb)
-        (thr0 (if live then TFinished else TRunning) FFirst).
+        (if c_hb c then (if live then Thr TRunning FHb 1 0 [] else thr0 TNotStarted FHb) else thr0 TAbsent FHb)
+        (if live then Thr TFinished FFirst 6 0 [] else thr0 TRunning FFirst).
 
 Fixpoint live_addrs (cs : list acfg) (i : nat) : list N :=
   match cs with
@@ -416,7 +457,8 @@ Fixpoint live_addrs (cs : list acfg) (i : nat) : list N :=
 
 Definition init_node (cap : nat) (cs : list acfg) : node :=
   Node (mkchan 0) (mkchan cap) (mkchan 0) false (live_addrs cs 0) false false false
-       (thr0 TRunning FNode) (thr0 TNotStarted FStop).
+       (mkchan 0) false (List.length (live_addrs cs 0)) 0
+       (thr0 TRunning FNode) (thr0 TNotStarted FStop) (thr0 TRunning FPeers).
 
 Definition init_cap (cap : nat) (cs : list acfg) (ev : list env) : state :=
   State (init_node cap cs) (map init_assoc cs) ev None.
@@ -428,7 +470,7 @@ Definition assoc_labels (i : nat) : list tid :=
 
 Definition labels (s : state) : list tid :=
   map TEnv (seq 0 (List.length (s_env s)))
-  ++ [TNode 0; TNode 1; TNode 2; TStop]
+  ++ [TNode 0; TNode 1; TNode 2; TStop; TPeers]
   ++ flat_map assoc_labels (seq 0 (List.length (s_asc s))).
 
 Definition enabled (s : state) (l : tid) : bool :=
@@ -466,15 +508,16 @@ Definition parked_ok (a : assoc) : bool :=
   match a_once a with
   | ONew =>
     (* live association: reader in Read, select loop and monitor in their select, or not yet accepted *)
-    let at0 t := thr_done t || (Nat.eqb (t_pc t) 0 && match t_fn t with FDo => false | _ => true end) in
-    at0 (a_rd a) && at0 (a_sel a) && at0 (a_hb a) && at0 (a_fst a)
+    let at_wait k t := thr_done t || (Nat.eqb (t_pc t) k && match t_fn t with FDo => false | _ => true end) in
+    at_wait 0 (a_rd a) && at_wait 0 (a_sel a) && at_wait 1 (a_hb a) && at_wait 0 (a_fst a)
   | ORun _ => false
   | ODone => assoc_threads_done a
   end.
 
 Definition node_parked_ok (s : state) : bool :=
   let nd := s_node s in
-  (thr_done (n_thr nd) || (Nat.eqb (t_pc (n_thr nd)) 0 && negb (cclosed (n_ctx nd))))
+  ((thr_done (n_thr nd) && thr_done (n_peers nd))
+   || (Nat.eqb (t_pc (n_thr nd)) 0 && negb (cclosed (n_ctx nd)) && Nat.eqb (t_pc (n_peers nd)) 0))
   && (thr_done (n_stop nd)).
 
 (* what a state in which nothing can move must look like when the agent is healthy: ended
@@ -501,7 +544,7 @@ Definition observe (s : state) : outcome :=
    conn = true: connection-level scenario, the receiver of pConnDone never takes its ctx.Done branch
    (the harness plays the node with a goroutine that only receives) *)
 Definition thread_labels (conn : bool) (s : state) : list tid :=
-  (if conn then [TNode 0] else [TNode 0; TNode 1; TNode 2; TStop])
+  (if conn then [TNode 0] else [TNode 0; TNode 1; TNode 2; TStop; TPeers])
   ++ flat_map assoc_labels (seq 0 (List.length (s_asc s))).
 
 Fixpoint first_enabled (s : state) (ls : list tid) : option (tid * state) :=
@@ -546,12 +589,13 @@ Definition dgram_eqb (a b : dgram) : bool :=
   match a, b with DRelease, DRelease | DSetup, DSetup | DOther, DOther => true | _, _ => false end.
 Definition role_eqb (a b : role) : bool :=
   match a, b with
-  | RRd, RRd | RSel, RSel | RHb, RHb | RFst, RFst | RNode, RNode | RStop, RStop => true
+  | RRd, RRd | RSel, RSel | RHb, RHb | RFst, RFst | RNode, RNode | RStop, RStop | RPeers, RPeers => true
   | _, _ => false
   end.
 Definition fname_eqb (a b : fname) : bool :=
   match a, b with
-  | FReader, FReader | FSelect, FSelect | FHb, FHb | FFirst, FFirst | FDo, FDo | FNode, FNode | FStop, FStop => true
+  | FReader, FReader | FSelect, FSelect | FHb, FHb | FFirst, FFirst | FDo, FDo | FNode, FNode | FStop, FStop
+  | FPeers, FPeers => true
   | _, _ => false
   end.
 Definition tstat_eqb (a b : tstat) : bool :=
@@ -576,12 +620,15 @@ Definition assoc_eqb (a b : assoc) : bool :=
   &&& list_eqb N.eqb (a_store a) (a_store b) &&& list_eqb N.eqb (a_del a) (a_del b)
   &&& chan_eqb (a_shut a) (a_shut b) &&& chan_eqb (a_tmo a) (a_tmo b) &&& chan_eqb (a_hbc a) (a_hbc b)
   &&& Bool.eqb (a_sock a) (a_sock b) &&& list_eqb dgram_eqb (a_inbox a) (a_inbox b)
-  &&& Bool.eqb (a_tmo_armed a) (a_tmo_armed b) &&& Bool.eqb (a_hb_armed a) (a_hb_armed b).
+  &&& Bool.eqb (a_tmo_armed a) (a_tmo_armed b) &&& Bool.eqb (a_hb_armed a) (a_hb_armed b)
+  &&& Bool.eqb (a_hbreg a) (a_hbreg b).
 Definition node_eqb (a b : node) : bool :=
   thr_eqb (n_thr a) (n_thr b) &&& thr_eqb (n_stop a) (n_stop b)
   &&& chan_eqb (n_ctx a) (n_ctx b) &&& chan_eqb (n_pcd a) (n_pcd b) &&& chan_eqb (n_done a) (n_done b)
   &&& Bool.eqb (n_lsock a) (n_lsock b) &&& list_eqb N.eqb (n_map a) (n_map b)
-  &&& Bool.eqb (n_exit a) (n_exit b) &&& Bool.eqb (n_busy a) (n_busy b) &&& Bool.eqb (n_main a) (n_main b).
+  &&& Bool.eqb (n_exit a) (n_exit b) &&& Bool.eqb (n_busy a) (n_busy b) &&& Bool.eqb (n_main a) (n_main b)
+  &&& thr_eqb (n_peers a) (n_peers b) &&& chan_eqb (n_npd a) (n_npd b) &&& Bool.eqb (n_npdnil a) (n_npdnil b)
+  &&& Nat.eqb (n_created a) (n_created b) &&& Nat.eqb (n_ended a) (n_ended b).
 Definition env_eqb (a b : env) : bool :=
   match a, b with
   | EDeliver i d, EDeliver j e => Nat.eqb i j &&& dgram_eqb d e
@@ -601,11 +648,11 @@ Definition state_eqb (a b : state) : bool :=
 (* hash for the explorer's visited set (any function would do; soundness does not depend on it) *)
 Local Open Scope N_scope.
 Definition fn_code (f : fname) : N :=
-  match f with FReader => 0 | FSelect => 1 | FHb => 2 | FFirst => 3 | FDo => 4 | FNode => 5 | FStop => 6 end.
+  match f with FReader => 0 | FSelect => 1 | FHb => 2 | FFirst => 3 | FDo => 4 | FNode => 5 | FStop => 6 | FPeers => 7 end.
 Definition st_code (t : tstat) : N :=
   match t with TAbsent => 0 | TNotStarted => 1 | TRunning => 2 | TFinished => 3 end.
 Definition thr_key (t : thr) : N :=
-  (N.of_nat (t_pc t) * 7 + fn_code (t_fn t)) * 4 + st_code (t_st t) + 64 * N.of_nat (List.length (t_it t)).
+  (N.of_nat (t_pc t) * 8 + fn_code (t_fn t)) * 4 + st_code (t_st t) + 64 * N.of_nat (List.length (t_it t)).
 Definition once_code (o : once) : N := match o with ONew => 0 | ORun _ => 1 | ODone => 2 end.
 Definition b2n (b : bool) : N := if b then 1 else 0.
 Definition assoc_key (a : assoc) : N :=
@@ -617,7 +664,7 @@ Definition state_key (s : state) : positive :=
   let nd := s_node s in
   N.succ_pos
     (fold_left (fun h a => h * 1000003 + assoc_key a) (s_asc s)
-       ((thr_key (n_thr nd) * 131 + thr_key (n_stop nd)) * 64
+       (((thr_key (n_thr nd) * 131 + thr_key (n_stop nd)) * 131 + thr_key (n_peers nd) + N.of_nat (n_ended nd) * 7) * 64
         + N.of_nat (List.length (cbuf (n_pcd nd))) * 8 + N.of_nat (List.length (s_env s)))).
 Local Close Scope N_scope.
 
@@ -628,24 +675,25 @@ Definition level := LTS.level state tid step state_eqb state_key labels.
 (* canonical text produced by harness/skel from conn.go / node.go; Gen/Skel_gen.v holds the text of
    the CURRENT tree and Proofs/TeardownSkel.v checks equality by eq_refl.  Reading guide: conn_serve go{...} is
    FReader, its loop{select} is FSelect, conn_doShutdown is FDo, conn_hb_monitor is FHb, node_new_conn
-   is FFirst (inside node_new_peers), node_serve is FNode, iface_stop / node_stop / node_done are FStop *)
+   is FFirst (inside node_new_peers, whose return is FPeers), node_serve is FNode, iface_stop / node_stop /
+   node_done are FStop *)
 Open Scope string_scope.
 Definition conn_shutdown_skel :=
   "once(shutdownOnce,doShutdown)".
 Definition conn_doShutdown_skel :=
-  "close(shutdown);if(hbCtxCancel){call(hbCtxCancel)};range(store.GetAllSessions){call(SendMsgToUPF:upfMsgTypeDel);call(RemoveSession)};send(done);call(Close);if{return}".
+  "close(shutdown);call(hbMu.Lock);if(hbCtxCancel){call(hbCtxCancel)};call(hbMu.Unlock);range(store.GetAllSessions){call(SendMsgToUPF:upfMsgTypeDel);call(RemoveSession)};send(done);call(Close);if{return}".
 Definition conn_serve_skel :=
   "make(connTimeout,1);go{loop{call(SetReadDeadline);call(Read);if{if{send(connTimeout);return};if{return};continue};call(HandlePFCPMsg)}};loop{select{recv(connTimeout):{call(Shutdown);return};recv(ctx.Done):{call(Shutdown);return};recv(shutdown):{return}}}".
 Definition conn_hb_monitor_skel :=
-  "if(hbCtxCancel){call(hbCtxCancel)};loop{select{recv(hbCtx.Done):{return};recv(hbReset):{};recv(heartBeatExpiryTimer.C):{call(sendPFCPRequestMessage);if{call(Shutdown)}}}}".
+  "call(hbMu.Lock);select{recv(shutdown):{call(hbMu.Unlock);return};default:{}};if(hbCtxCancel){call(hbCtxCancel)};call(hbMu.Unlock);loop{select{recv(hbCtx.Done):{return};recv(hbReset):{};recv(heartBeatExpiryTimer.C):{call(sendPFCPRequestMessage);if{call(Shutdown)}}}}".
 Definition node_new_conn_skel :=
-  "call(Dial);bind(done,pConnDone);make(shutdown,0);make(hbReset,100);if{call(HandlePFCPMsg)};call(pConns.Store);go(Serve);return".
+  "call(pConnsCreated.Add);call(Dial);bind(done,pConnDone);make(shutdown,0);make(hbReset,100);call(pConns.Store);if{call(HandlePFCPMsg)};go(Serve);return".
 Definition node_new_skel :=
-  "call(ListenPacket);make(done,0);make(pConnDone,100);return".
+  "call(ListenPacket);make(done,0);make(pConnDone,100);make(newPeersDone,0);return".
 Definition node_new_peers_skel :=
-  "call(tryConnectToN4Peers);loop{call(ReadFrom);if{if{return};continue};call(pConns.Load);if{continue};call(NewPFCPConn)}".
+  "defer(close:newPeersDone);call(tryConnectToN4Peers);loop{call(ReadFrom);if{if{return};continue};call(pConns.Load);if{continue};call(NewPFCPConn)}".
 Definition node_serve_skel :=
-  "go(handleNewPeers);loop{select{recv(upf.reportNotifyChan):{call(pConns.Range)};recv(pConnDone):{call(pConns.Delete)};recv(ctx.Done):{call(Close);loop{select{recv(pConnDone):{if{break};call(pConns.Delete)};default:{break}}};if(len(pConnDone)){range(pConnDone){call(pConns.Delete)}};close(pConnDone);call(Exit)}}};close(done)".
+  "go(handleNewPeers);loop(shutdown){select{recv(upf.reportNotifyChan):{call(pConns.Range)};recv(pConnDone):{inc(pConnsEnded);call(pConns.Delete)};recv(ctx.Done):{call(Close);loop(newPeersDone,pConnsEnded){call(pConnsCreated.Load);select{recv(newPeersDone):{set(newPeersDone,nil)};recv(pConnDone):{inc(pConnsEnded);call(pConns.Delete)}}};close(pConnDone);call(Exit)}}};close(done)".
 Definition node_stop_skel :=
   "call(cancel)".
 Definition node_done_skel :=
@@ -653,6 +701,6 @@ Definition node_done_skel :=
 Definition handle_msg_skel :=
   "if{return};switch{case(message.MsgTypeAssociationSetupRequest){if{go(startHeartBeatMonitor)}};case(message.MsgTypeAssociationReleaseRequest){call(handleAssociationReleaseRequest);defer(Shutdown)}}".
 Definition iface_stop_skel :=
-  "defer{call(cancel)};call(node.Stop);call(node.Done)".
+  "defer(Unlock);defer{call(cancel)};call(node.Stop);call(node.Done)".
 Definition remove_session_skel :=
   "call(store.DeleteSession)".
